@@ -40,8 +40,10 @@ theorem remove_identity_without_rigs (mul : G → G → G) (rigs : Rigs G) (n : 
   remove_identity_aux mul rigs n t h
 
 /-- recovering after replacing gives back every top-level rig pose and keeps every free entry — for rigs whose members
-  are sensors (depth 1), unspecified master sensors, and a trajectory in which no rig member is posed directly
-  (PARTIAL: the full statement, with nesting and master sensors, is `recover_remove_statement`) -/
+  are sensors (depth 1), unspecified master sensors, and a trajectory in which no rig member is posed directly.
+  SUBSUMED: this is `recover_remove_exact` at `n = k = 1`, `masters = none`, `σ = id` (the `example` after
+  `recover_remove_statement_toplevel` derives it from there); nesting and master sensors are covered by
+  `recover_remove_nested`, `recover_remove_masters` and `recover_remove_exact`.  Kept for the record. -/
 theorem recover_remove_depth1_partial (mul : G → G → G) (inv : G → G) (rigs : Rigs G) (t : List (Entry G))
     (hinv : ∀ a b, mul (inv a) (mul a b) = b)
     (hflat : ∀ r members, (r, members) ∈ rigs → members ≠ [] ∧ ∀ m ∈ members, ¬ isRig rigs m.1)
@@ -53,8 +55,145 @@ theorem recover_remove_depth1_partial (mul : G → G → G) (inv : G → G) (rig
   have _ := hrk   -- not needed by the proof: `hone` and `hflat` already make the reversed dictionary unambiguous
   exact sameEntries_of_mem_iff (recover_remove_depth1_aux mul inv rigs t hinv hflat hone hsrc hkeys)
 
-/-- the full statement of the recovery half (nesting up to max_depth, master sensors naming one posed member per rig and
-  timestamp): recovering from member poses that agree with the rig geometry gives back every top-level rig pose -/
+/-- RECOVERY, NESTED RIGS (rigs mounted on rigs, any depth `n`), unspecified master sensors.  After `remove mul rigs n t`,
+  at least `n` passes of the recovery (`k ≥ n`; further passes change nothing of what is claimed) give a trajectory that
+  contains, for every ORIGINAL entry of a top-level rig (a rig mounted on no rig), an entry with the same timestamp,
+  device and pose, and still contains every original entry of a free sensor (neither a rig nor mounted).
+  Before each pass the entries are listed by `σ`: the code sorts them (`sortEntries`, with `mem_sortEntries`); the
+  theorem holds for ANY listing that keeps the same entries, in particular for the list as produced (`σ = id`).
+  Hypotheses, all decidable for concrete data except the group law: rig ids distinct, each device mounted on at most
+  one rig and once, every rig non-empty, nesting depth at most `n` under every posed device, no device at or below a
+  posed device is posed itself at that timestamp (`hsingle`), (timestamp, device) keys distinct.
+  Only the left-inverse law of the pose group is needed (associativity is not). -/
+theorem recover_remove_nested (mul : G → G → G) (inv : G → G) (rigs : Rigs G)
+    (σ : List (Entry G) → List (Entry G)) (hσ : ∀ l c, c ∈ σ l ↔ c ∈ l) (t : List (Entry G)) (n k : Nat)
+    (hinv : ∀ a b, mul (inv a) (mul a b) = b)
+    (hne : ∀ r ∈ rigs, r.2 ≠ [])
+    (hrk : (rigs.map (·.1)).Nodup)
+    (hone : (rigs.flatMap (fun r => r.2.map (·.1))).Nodup)
+    (hdepth : ∀ e ∈ t, DepthLE rigs n e.dev)
+    (hsingle : ∀ e ∈ t, ∀ e' ∈ t, e.ts = e'.ts → e'.dev ∈ belowList rigs n e.dev → e'.dev = e.dev)
+    (hkeys : (t.map (fun e => (e.ts, e.dev))).Nodup)
+    (hk : n ≤ k) :
+    (∀ e ∈ t, isRig rigs e.dev → e.dev ∉ rigs.flatMap (fun r => r.2.map (·.1)) →
+      ∃ e' ∈ recoverIter mul inv rigs none σ k (remove mul rigs n t), e'.ts = e.ts ∧ e'.dev = e.dev ∧ e'.g = e.g) ∧
+    (∀ e ∈ t, ¬ isRig rigs e.dev → e.dev ∉ rigs.flatMap (fun r => r.2.map (·.1)) →
+      e ∈ recoverIter mul inv rigs none σ k (remove mul rigs n t)) := by
+  have hmaster : ∀ e ∈ t, ∀ r ∈ belowList rigs n e.dev, ∀ members, membersOf rigs r = some members →
+      ∃ m ∈ members, okOf none m.1 = true := by
+    intro e _ r _ members hmo
+    obtain ⟨m, hm⟩ := List.exists_mem_of_ne_nil _ (hne (r, members) (mem_of_get? _ _ _ hmo))
+    exact ⟨m, hm, rfl⟩
+  have key := fun e he htop => recover_remove_aux mul inv rigs none σ hσ t n k hinv hrk hone hdepth hsingle hkeys
+    hmaster hk e he htop
+  exact ⟨fun e he _ htop => ⟨e, key e he htop, rfl, rfl, rfl⟩, fun e he _ htop => key e he htop⟩
+
+/-- RECOVERY WITH MASTER SENSORS, nested rigs: the same as `recover_remove_nested` with `master_sensors = ms`, provided
+  every rig at or below a posed device lists at least one of its members in `ms` (`hmaster`; a member that is itself a
+  rig counts only when its own id is in `ms`).  After `remove`, that member (or the sensors below it) is posed at every
+  timestamp of the rig, which is the "one posed master member per rig and timestamp" of the property.
+  Free sensors are unmounted, so the filter never drops them. -/
+theorem recover_remove_masters (mul : G → G → G) (inv : G → G) (rigs : Rigs G) (ms : List String)
+    (σ : List (Entry G) → List (Entry G)) (hσ : ∀ l c, c ∈ σ l ↔ c ∈ l) (t : List (Entry G)) (n k : Nat)
+    (hinv : ∀ a b, mul (inv a) (mul a b) = b)
+    (hrk : (rigs.map (·.1)).Nodup)
+    (hone : (rigs.flatMap (fun r => r.2.map (·.1))).Nodup)
+    (hdepth : ∀ e ∈ t, DepthLE rigs n e.dev)
+    (hsingle : ∀ e ∈ t, ∀ e' ∈ t, e.ts = e'.ts → e'.dev ∈ belowList rigs n e.dev → e'.dev = e.dev)
+    (hkeys : (t.map (fun e => (e.ts, e.dev))).Nodup)
+    (hmaster : ∀ e ∈ t, ∀ r ∈ belowList rigs n e.dev, ∀ members, membersOf rigs r = some members →
+      ∃ m ∈ members, m.1 ∈ ms)
+    (hk : n ≤ k) :
+    (∀ e ∈ t, isRig rigs e.dev → e.dev ∉ rigs.flatMap (fun r => r.2.map (·.1)) →
+      ∃ e' ∈ recoverIter mul inv rigs (some ms) σ k (remove mul rigs n t),
+        e'.ts = e.ts ∧ e'.dev = e.dev ∧ e'.g = e.g) ∧
+    (∀ e ∈ t, ¬ isRig rigs e.dev → e.dev ∉ rigs.flatMap (fun r => r.2.map (·.1)) →
+      e ∈ recoverIter mul inv rigs (some ms) σ k (remove mul rigs n t)) := by
+  have hmaster' : ∀ e ∈ t, ∀ r ∈ belowList rigs n e.dev, ∀ members, membersOf rigs r = some members →
+      ∃ m ∈ members, okOf (some ms) m.1 = true := by
+    intro e he r hr members hmo
+    obtain ⟨m, hm, hin⟩ := hmaster e he r hr members hmo
+    exact ⟨m, hm, List.contains_iff_mem.mpr hin⟩
+  have key := fun e he htop => recover_remove_aux mul inv rigs (some ms) σ hσ t n k hinv hrk hone hdepth hsingle hkeys
+    hmaster' hk e he htop
+  exact ⟨fun e he _ htop => ⟨e, key e he htop, rfl, rfl, rfl⟩, fun e he _ htop => key e he htop⟩
+
+/-- EXACT ROUND TRIP: when the original trajectory poses unmounted devices only (top-level rigs and free sensors), `n`
+  or more recovery passes after `remove` give back exactly the original entries, order aside — any nesting depth, with or
+  without master sensors (`masters = none` needs only non-empty rigs: `okOf none _ = true`) -/
+theorem recover_remove_exact (mul : G → G → G) (inv : G → G) (rigs : Rigs G) (masters : Option (List String))
+    (σ : List (Entry G) → List (Entry G)) (hσ : ∀ l c, c ∈ σ l ↔ c ∈ l) (t : List (Entry G)) (n k : Nat)
+    (hinv : ∀ a b, mul (inv a) (mul a b) = b)
+    (hrk : (rigs.map (·.1)).Nodup)
+    (hone : (rigs.flatMap (fun r => r.2.map (·.1))).Nodup)
+    (hdepth : ∀ e ∈ t, DepthLE rigs n e.dev)
+    (hsrc : ∀ e ∈ t, e.dev ∉ rigs.flatMap (fun r => r.2.map (·.1)))
+    (hkeys : (t.map (fun e => (e.ts, e.dev))).Nodup)
+    (hmaster : ∀ e ∈ t, ∀ r ∈ belowList rigs n e.dev, ∀ members, membersOf rigs r = some members →
+      ∃ m ∈ members, okOf masters m.1 = true)
+    (hk : n ≤ k) :
+    SameEntries (recoverIter mul inv rigs masters σ k (remove mul rigs n t)) t := by
+  apply sameEntries_of_mem_iff
+  intro c
+  constructor
+  · exact recover_remove_only_aux mul inv rigs masters σ hσ t n k hinv hrk hone hdepth hsrc hk c
+  · intro hc
+    refine recover_remove_aux mul inv rigs masters σ hσ t n k hinv hrk hone hdepth ?_ hkeys hmaster hk c hc (hsrc c hc)
+    -- a device at or below a posed device that is posed itself would be mounted, unless it is that device
+    intro e he e' he' _ hbelow
+    exact belowList_unmounted rigs n e.dev e'.dev hbelow (hsrc e' he')
+
+/-- `recover_remove_nested` in the shape of `recover_remove_statement` (passes chained on the list as produced), for the
+  entries of top-level rigs: `k = n` passes do -/
+theorem recover_remove_statement_toplevel (mul : G → G → G) (inv : G → G) (rigs : Rigs G) (t : List (Entry G)) (n : Nat)
+    (hinv : ∀ a b, mul (inv a) (mul a b) = b)
+    (hne : ∀ r ∈ rigs, r.2 ≠ [])
+    (hrk : (rigs.map (·.1)).Nodup)
+    (hone : (rigs.flatMap (fun r => r.2.map (·.1))).Nodup)
+    (hdepth : ∀ e ∈ t, DepthLE rigs n e.dev)
+    (hsingle : ∀ e ∈ t, ∀ e' ∈ t, e.ts = e'.ts → e'.dev ∈ belowList rigs n e.dev → e'.dev = e.dev)
+    (hkeys : (t.map (fun e => (e.ts, e.dev))).Nodup) :
+    ∀ e ∈ t, isRig rigs e.dev → e.dev ∉ rigs.flatMap (fun r => r.2.map (·.1)) →
+      ∃ t', (∃ k, t' = (List.range k).foldl (fun cur _ => recoverStep mul inv rigs none cur) (remove mul rigs n t)) ∧
+        ∃ e' ∈ t', e'.ts = e.ts ∧ e'.dev = e.dev ∧ e'.g = e.g := by
+  intro e he hrig htop
+  refine ⟨_, ⟨n, rfl⟩, ?_⟩
+  rw [← recoverIter_id_eq]
+  exact (recover_remove_nested mul inv rigs id (fun _ _ => Iff.rfl) t n n hinv hne hrk hone hdepth hsingle hkeys
+    (Nat.le_refl n)).1 e he hrig htop
+
+/-- the loop as the code runs it — at most `k` passes, stopping at the first pass without a job — ends with the same
+  entries as `k` full passes, so `recover_remove_nested`, `recover_remove_masters` and `recover_remove_exact` hold for it
+  (`k = max_depth = 10`, `σ = sortEntries`) -/
+theorem recoverLoop_same_entries (mul : G → G → G) (inv : G → G) (rigs : Rigs G) (masters : Option (List String))
+    (σ : List (Entry G) → List (Entry G)) (hσ : ∀ l c, c ∈ σ l ↔ c ∈ l) (k : Nat) (t : List (Entry G)) :
+    SameEntries (recoverLoop mul inv rigs masters σ k t) (recoverIter mul inv rigs masters σ k t) :=
+  sameEntries_of_mem_iff (mem_recoverLoop mul inv rigs masters σ hσ k t)
+
+-- `recover_remove_depth1_partial` is an instance of `recover_remove_exact`
+example (mul : G → G → G) (inv : G → G) (rigs : Rigs G) (t : List (Entry G))
+    (hinv : ∀ a b, mul (inv a) (mul a b) = b)
+    (hflat : ∀ r members, (r, members) ∈ rigs → members ≠ [] ∧ ∀ m ∈ members, ¬ isRig rigs m.1)
+    (hrk : (rigs.map (·.1)).Nodup)
+    (hone : (rigs.flatMap (fun r => r.2.map (·.1))).Nodup)
+    (hsrc : ∀ e ∈ t, (Dict.get? e.dev (reverseRigs inv rigs)).isNone = true)
+    (hkeys : (t.map (fun e => (e.ts, e.dev))).Nodup) :
+    SameEntries (recoverStep mul inv rigs none (removeStep mul rigs t)) t := by
+  have h := recover_remove_exact mul inv rigs none id (fun _ _ => Iff.rfl) t 1 1 hinv hrk hone
+    (fun e _ members hmo m hm => (hflat _ _ (mem_of_get? _ _ _ hmo)).2 m hm)
+    (fun e he => unmounted_of_get?_none inv rigs hone e.dev (hsrc e he)) hkeys
+    (fun e _ r _ members hmo => by
+      obtain ⟨m, hm⟩ := List.exists_mem_of_ne_nil _ (hflat _ _ (mem_of_get? _ _ _ hmo)).1
+      exact ⟨m, hm, rfl⟩)
+    (Nat.le_refl 1)
+  rw [remove_one] at h
+  exact h
+
+/-- the first wording of the recovery half, kept as a definition: it grants only the group laws and the depth bound, and
+  asks for EVERY posed rig.  PROVED for the entries of top-level rigs under the well-formedness hypotheses the property's
+  quantifier grants: `recover_remove_statement_toplevel` (this very shape), `recover_remove_nested` (masters = none),
+  `recover_remove_masters` (masters = some ms), `recover_remove_exact` (exact round trip).  NOT claimed for a posed rig
+  that is itself mounted on an unposed rig: the passes go on and replace its entry by its parent's. -/
 def recover_remove_statement (mul : G → G → G) (inv : G → G) (rigs : Rigs G) (masters : Option (List String))
     (t : List (Entry G)) (n : Nat) : Prop :=
   (∀ a b, mul (inv a) (mul a b) = b) → (∀ a b c, mul (mul a b) c = mul a (mul b c)) →
@@ -69,6 +208,44 @@ example : remove (fun a b => a + b) [("top", [("sub", (10 : Int)), ("camA", 1)])
     = [⟨5, "camB", 1110⟩, ⟨5, "camA", 1001⟩, ⟨5, "free", 7⟩] := by decide
 example : recoverStep (fun a b => a + b) (fun a => -a) [("top", [("camA", (1 : Int)), ("camB", 2)])] none
       [⟨5, "camA", 1001⟩, ⟨5, "camB", 1002⟩, ⟨5, "free", 7⟩]
+    = [⟨5, "free", 7⟩, ⟨5, "top", 1000⟩] := by decide
+
+-- non-vacuity of the recovery theorems: a rig mounted on a rig ("sub" on "top"), poses as integers under addition
+example : recoverIter (fun a b => a + b) (fun a => -a)
+      [("top", [("sub", (10 : Int)), ("camA", 1)]), ("sub", [("camB", 100), ("camC", 200)])] none id 2
+      (remove (fun a b => a + b) [("top", [("sub", (10 : Int)), ("camA", 1)]), ("sub", [("camB", 100), ("camC", 200)])] 2
+        [⟨5, "top", 1000⟩, ⟨5, "free", 7⟩, ⟨6, "sub", 50⟩])
+    = [⟨5, "free", 7⟩, ⟨5, "top", 1000⟩, ⟨6, "top", 40⟩] := by decide
+-- master sensors: "sub" is recovered from camC only, "top" from "sub" only
+example : recoverIter (fun a b => a + b) (fun a => -a)
+      [("top", [("sub", (10 : Int)), ("camA", 1)]), ("sub", [("camB", 100), ("camC", 200)])] (some ["camC", "sub"]) id 2
+      (remove (fun a b => a + b) [("top", [("sub", (10 : Int)), ("camA", 1)]), ("sub", [("camB", 100), ("camC", 200)])] 2
+        [⟨5, "top", 1000⟩, ⟨5, "free", 7⟩])
+    = [⟨5, "free", 7⟩, ⟨5, "top", 1000⟩] := by decide
+-- the hypotheses of `recover_remove_nested` / `recover_remove_masters` / `recover_remove_exact` hold on that input
+example :
+    let rigs : Rigs Int := [("top", [("sub", 10), ("camA", 1)]), ("sub", [("camB", 100), ("camC", 200)])]
+    let t : List (Entry Int) := [⟨5, "top", 1000⟩, ⟨5, "free", 7⟩]
+    SameEntries (recoverIter (fun a b => a + b) (fun a => -a) rigs (some ["camC", "sub"]) id 2
+      (remove (fun a b => a + b) rigs 2 t)) t := by
+  intro rigs t
+  exact recover_remove_exact (fun a b => a + b) (fun a => -a) rigs (some ["camC", "sub"]) id (fun _ _ => Iff.rfl) t 2 2
+    (by intro a b; omega) (by decide) (by decide) (by decide) (by decide) (by decide) (by decide) (Nat.le_refl 2)
+example :
+    let rigs : Rigs Int := [("top", [("sub", 10), ("camA", 1)]), ("sub", [("camB", 100), ("camC", 200)])]
+    let t : List (Entry Int) := [⟨5, "top", 1000⟩, ⟨5, "free", 7⟩, ⟨6, "sub", 50⟩, ⟨6, "camA", 9⟩]
+    ∃ e' ∈ recoverIter (fun a b => a + b) (fun a => -a) rigs none sortEntries 2 (remove (fun a b => a + b) rigs 2 t),
+      e'.ts = 5 ∧ e'.dev = "top" ∧ e'.g = 1000 := by
+  intro rigs t
+  exact (recover_remove_nested (fun a b => a + b) (fun a => -a) rigs sortEntries mem_sortEntries t 2 2
+    (by intro a b; omega) (by decide) (by decide) (by decide) (by decide) (by decide) (by decide) (Nat.le_refl 2)).1
+    ⟨5, "top", 1000⟩ (by decide) (by decide) (by decide)
+
+-- the loop with early exit, max_depth = 10, on the same nested input
+example : recoverLoop (fun a b => a + b) (fun a => -a)
+      [("top", [("sub", (10 : Int)), ("camA", 1)]), ("sub", [("camB", 100), ("camC", 200)])] none id 10
+      (remove (fun a b => a + b) [("top", [("sub", (10 : Int)), ("camA", 1)]), ("sub", [("camB", 100), ("camC", 200)])] 10
+        [⟨5, "top", 1000⟩, ⟨5, "free", 7⟩])
     = [⟨5, "free", 7⟩, ⟨5, "top", 1000⟩] := by decide
 
 end Kapture.C06
